@@ -3,6 +3,7 @@ cmd_* functions, comparing every tapped resolver call with the model, and the
 direct oracles for C09, C10, C11, C13."""
 import json
 import os
+import re
 from collections import Counter
 
 import vetlib
@@ -289,8 +290,13 @@ def oracle_c11(step):
 
 def only_removals(a_files, b_files):
     """b differs from a only by removed lines (per file), i.e. entries were dropped"""
+    def norm(text):
+        # entries only: drop blank lines, comments and plain table headers such as the
+        # `[audits]` that is written when a table becomes empty
+        return [l.strip() for l in text.splitlines()
+                if l.strip() and not l.strip().startswith("#") and not re.match(r"^\[[^\[]", l.strip())]
     for k in ("config", "audits", "imports"):
-        al, bl = a_files[k].splitlines(), b_files[k].splitlines()
+        al, bl = norm(a_files[k]), norm(b_files[k])
         it = iter(al)
         if not all(any(x == y for y in it) for x in bl):
             return False
@@ -307,7 +313,9 @@ def oracle_c13(step):
     if cls in ("check", "prune", "regenerate-imports", "regenerate-exemptions", "fmt") and rep:
         if rep["outcome"] == "ok" and not all(rep["same_bytes"]):
             f = None
-            if cls == "prune":
+            # the known finding: a second prune only DROPS entries the first one kept
+            # (freshness promotion after the import); anything else is new
+            if cls == "prune" and rep.get("files") and only_removals(step.s["files"], rep["files"]):
                 f = "F-C13-prune"
             out.append({"what": f"re-running `{cmd}` with unchanged inputs changed store files {rep['same_bytes']}", "finding": f})
     if cls == "check-locked" and step.pre is not None and step.post is not None:
